@@ -93,6 +93,10 @@ def all_forms(ctx, pdb2sql, case, rep):
                 out[route[:5]].append(({'route': route, 'method': method, 'zone': mode}, res))
         res, _ = SC.call(pdb2sql, 'lrmsd_sql', dp, rp, False, method=method)
         out['lrmsd'].append(({'route': 'lrmsd_sql', 'method': method, 'zone': 'none'}, res))
+        # the same measure fitted on the CA atoms only: small (3-atom, hence coplanar) fit sets, where the two
+        # superposition methods must still find the same minimum
+        res, _ = SC.call(pdb2sql, 'lrmsd_fast', dp, rp, False, method=method, names=['CA'])
+        out.setdefault('lrmsd_ca', []).append(({'route': 'lrmsd_fast', 'method': method, 'zone': 'none', 'names': ['CA']}, res))
     for fr in ('fast', 'sql'):
         with contextlib.redirect_stdout(io.StringIO()):
             try:
@@ -106,6 +110,22 @@ def all_forms(ctx, pdb2sql, case, rep):
         try: os.remove(f)
         except OSError: pass
     return out
+
+def ca_fit_degenerate(case):
+    """is the common CA set of some chain too small or (nearly) collinear for a unique optimal superposition?"""
+    import numpy as np
+    for ch in sorted({a['chainID'] for a in case['ref']}):
+        kd = {(a['chainID'], a['resSeq']): a for a in case['decoy'] if a['name'] == 'CA' and a['chainID'] == ch}
+        pts = [[a['x'], a['y'], a['z']] for a in case['ref'] if a['name'] == 'CA' and a['chainID'] == ch and (a['chainID'], a['resSeq']) in kd]
+        pts_d = [[kd[(a['chainID'], a['resSeq'])][c] for c in 'xyz'] for a in case['ref'] if a['name'] == 'CA' and a['chainID'] == ch and (a['chainID'], a['resSeq']) in kd]
+        for P in (pts, pts_d):
+            if len(P) < 3:
+                return True
+            M = np.array(P, dtype=float); M = M - M.mean(0)
+            sv = np.linalg.svd(M, compute_uv=False)
+            if sv[1] < 0.05 * max(sv[0], 1e-9) or sv[1] < 0.05:
+                return True
+    return False
 
 def judge_forms(case, out, feats):
     """all forms of a measure must return the same value (or all raise)"""
@@ -122,6 +142,10 @@ def judge_forms(case, out, feats):
         oks = [r[1] for _, r in lst if r[0] == 'OK']
         # thousandths may differ by one unit when the exact value sits on a rounding tie: margin rule
         if measure != 'fnat' and len(oks) == len(lst) and max(oks) - min(oks) <= 1:
+            continue
+        if measure == 'lrmsd_ca' and ca_fit_degenerate(case):
+            # fewer than three non-collinear common CA atoms in a chain: the optimal superposition of the fit set is not
+            # unique (any rotation about the line through the points is optimal), so the measured value is not determined
             continue
         groups = {}
         for f, r in lst:
